@@ -40,11 +40,20 @@ ElfNamesOk(p) == p.es \in {40, 64} /\ p.shndx < p.n /\ p.es * p.n <= p.slen
 ElfNoFit(p) == ~(p.n * p.es <= p.slen /\ (p.n = 0 \/ (p.shndx + 1) * p.es <= p.slen))
 \* two ELF-sections tags in one region (64-byte entries first, 40-byte entries last before the end tag, and the other way
 \* round): their sections compared with one another through the value type's PartialEq / Ord / Hash
-ElfCmpParams == { [cmp |-> TRUE, ea |-> ea, eb |-> eb, na |-> na, nb |-> nb, rot |-> r]
+\* twin: the entries of the second table are byte-for-byte the first 40 bytes of the first table's 64-byte entries (still
+\* different sections: a comparison that reads one side in the other side's layout runs past the shorter entry)
+ElfCmpParams == { [cmp |-> TRUE, ea |-> ea, eb |-> eb, na |-> na, nb |-> nb, rot |-> r, twin |-> FALSE]
                   : ea \in {40, 64}, eb \in {40, 64}, na \in 1..2, nb \in 1..2, r \in {0, 3} }
+                \cup { [cmp |-> TRUE, ea |-> 64, eb |-> 40, na |-> n, nb |-> n, rot |-> r, twin |-> TRUE] : n \in 1..2, r \in {0, 3} }
 ElfCmpTag(es, n, rot) == ElfTag([n |-> n, es |-> es, shndx |-> 0, slen |-> es * n, rot |-> rot, atEnd |-> FALSE, strbad |-> FALSE])
 ElfCmpCase(p) ==
-  [mem |-> InfoImage(<<ElfCmpTag(p.ea, p.na, p.rot), ElfCmpTag(p.eb, p.nb, p.rot + 1)>>), al |-> 0,
+  \* (twin: bytes 40..47 of the first table's last entry equal what follows the second table (its padding, the end tag), so that even a
+  \*  field-by-field comparison in the wrong layout does not stop before it leaves the region)
+  [mem |-> InfoImage(<<IF p.twin THEN Override(ElfCmpTag(64, p.na, p.rot), 20 + 64 * (p.na - 1) + 40, <<PadByte, PadByte, PadByte, PadByte, 0, 0, 0, 0>>) ELSE ElfCmpTag(p.ea, p.na, p.rot),
+                       IF ~p.twin THEN ElfCmpTag(p.eb, p.nb, p.rot + 1)
+                       ELSE LET a == Override(ElfCmpTag(64, p.na, p.rot), 20 + 64 * (p.na - 1) + 40, <<PadByte, PadByte, PadByte, PadByte, 0, 0, 0, 0>>) IN
+                            U32Bytes(9) \o U32Bytes(20 + 40 * p.nb) \o U32Bytes(p.nb) \o U32Bytes(40) \o U32Bytes(0)
+                            \o Concat([i \in 1..p.nb |-> SubSeq(a, 20 + 64 * (i - 1) + 1, 20 + 64 * (i - 1) + 40)])>>), al |-> 0,
    ext |-> [addr |-> ExtAddr, data |-> ExtData],
    calls |-> <<[op |-> "load"], [op |-> "elf_cmp"], [op |-> "dbg", what |-> "bi"]>>,
    desc |-> [area |-> "elf"] @@ p]
